@@ -332,5 +332,11 @@ class BaseWallet(object):
         :param path: bip32 path
         :return: child node
         """
-        path = Bip32Path.parse(s=path)
-        return self.master.derive_path(index_list=path.to_list())
+        levels = path.split("/")[1:]
+        index_list = Bip32Path.parse(s=path).to_list()
+        # Bip32Path holds five levels only, deeper levels are converted here
+        # so that the path is followed in full instead of being cut short
+        index_list += [Bip32Path.convert_hardened(x) for x in levels[5:]]
+        if len(index_list) != len(levels):
+            raise ValueError("empty path level")
+        return self.master.derive_path(index_list=index_list)
